@@ -17,10 +17,10 @@ REQUIRED_STATS = ("events",)
 SETTINGS_LEAK_IS_FAILURE = False  # C17 reports leaks itself, with the history attached
 
 _VALUES = {
-    "cg_tolerance": [0.5, 1e-2, 1e-4], "cholesky_max_tries": [1, 2, 6], "max_cg_iterations": [5, 50], "max_cholesky_size": [0, 3, 1000],
+    "cg_tolerance": [0.5, 1e-2, 1e-4, 0.0], "cholesky_max_tries": [1, 2, 6], "max_cg_iterations": [5, 50], "max_cholesky_size": [0, 3, 1000],
     "max_lanczos_quadrature_iterations": [3, 30], "max_preconditioner_size": [0, 2, 5], "max_root_decomposition_size": [2, 50],
     "min_preconditioning_size": [1, 10], "minres_tolerance": [1e-2, 1e-8], "num_contour_quadrature": [7, 25],
-    "num_trace_samples": [1, 5], "preconditioner_tolerance": [1e-1, 1e-6], "tridiagonal_jitter": [1e-4, 1e-8],
+    "num_trace_samples": [1, 5, 0], "preconditioner_tolerance": [1e-1, 1e-6], "tridiagonal_jitter": [1e-4, 1e-8, 0.0],
     "stable_qr_cpu_threshold": [1, 1000], "_linalg_dtype_symeig": ["float", "double"], "_linalg_dtype_cholesky": ["float", "double"],
 }
 
@@ -75,7 +75,7 @@ def gen_args(rng, name, kind):
     if kind == "value":
         return dict(value=rng.choice(_VALUES.get(name, [1, 2])))
     if kind == "dtype":
-        ch = lambda: rng.choice([None, None, 1e-3, 1e-5])  # noqa: E731
+        ch = lambda: rng.choice([None, None, 1e-3, 1e-5, 0.0, 0])  # noqa: E731  (0 / 0.0: "switch the jitter off" is a value, not "leave alone")
         return dict(float_value=ch(), double_value=ch(), half_value=ch())
     if name == "fast_computations":
         return dict(covar_root_decomposition=rng.random() < 0.5, log_prob=rng.random() < 0.5, solves=rng.random() < 0.5)
